@@ -76,8 +76,8 @@ DRIVERS = [
     dict(name="c06_conv", src="c06_kernel.cpp", defines=["OP_CONV"], ops=["conv"]),
     dict(name="c06_conva", src="c06_kernel.cpp", defines=["OP_CONVA"], ops=["conva"]),
     dict(name="c06_sweep", src="c06_kernel.cpp", defines=["OP_SWEEP"], ops=["convsweep"], opt="-O2"),
-    dict(name="c06_path_lp32", src="c06_path.cpp", defines=["VERIF_CFG=verif_cfg32"], ops=["store", "load", "loadcv", "loadcvp", "loadidx", "loadcvr", "arg", "ret", "cbarg", "cbret", "equiv", "storemix"]),
-    dict(name="c06_path_wide", src="c06_path.cpp", defines=["VERIF_CFG=verif_cfgwide"], ops=["wstore", "wload", "wloadcv", "wloadcvp", "wloadidx", "wloadcvr", "warg", "wret", "wcbarg", "wcbret", "wequiv", "wstoremix"]),
+    dict(name="c06_path_lp32", src="c06_path.cpp", defines=["VERIF_CFG=verif_cfg32"], ops=["store", "load", "loadw", "loadcv", "loadcvp", "loadidx", "loadcvr", "arg", "ret", "cbarg", "cbret", "equiv", "storemix"]),
+    dict(name="c06_path_wide", src="c06_path.cpp", defines=["VERIF_CFG=verif_cfgwide"], ops=["wstore", "wload", "wloadw", "wloadcv", "wloadcvp", "wloadidx", "wloadcvr", "warg", "wret", "wcbarg", "wcbret", "wequiv", "wstoremix"]),
 ]
 
 
@@ -183,6 +183,18 @@ def gen_cases(tier, rng):
                     if k == "bool" and op != "load" and op != "ret" and op != "cbarg":
                         continue      # (std::unique_ptr<bool[]> / a guest bool other than 0/1: left to the scalar paths)
                     cases.append("%s%s %s %s %d" % (pre, op, abi, k, v))
+        # the cell is rewritten by the sandbox right before the nth read of it (nth = 2..5): whatever the number of range
+        # checks of the branch, the value checked must be the value converted
+        for k in KINDS:
+            if k in ("wchar", "bool"):
+                continue
+            g = guest_kind(abi, k)
+            inr = [v for v in (0, 1, hi(k), lo(k), hi(k) - 1) if in_range(g, v) and in_range(k, v)]
+            outr = [v for v in (hi(k) + 1, lo(k) - 1, hi(g), lo(g), hi(k) + 256) if in_range(g, v) and not in_range(k, v)]
+            for v in sorted(set(inr)):
+                for ev in sorted(set(outr + [x for x in inr if x != v][:1])):
+                    for nth in (2, 3, 4, 5):
+                        cases.append("%sloadw %s %s %d %d %d" % (pre, abi, k, v, ev, nth))
         # a plain value of one integer type stored through a tainted pointer to another type (every ordered pair)
         for k in KINDS:
             for f in KINDS:
